@@ -148,22 +148,47 @@ Qed.
 
 End Top.
 
-(* ---- Server.verifySortition ----------------------------------------------------------------- *)
-Lemma fresh_credential_sound E v m b :
-  m_cred m = CredVrf b -> cred_ok E v m = true ->
-  fst (v_srv v) <= m_round m -> snd (v_srv v) <= m_idx m -> b = true.
+(* ---- the sortition verifier ------------------------------------------------------------------ *)
+(* an accepted credential is one whose claimed seat count is the weight the
+   verifier computes from the credential - or, without the repair and under
+   Server.verifySortition's rule, a stale one *)
+Lemma accepted_credential E v m :
+  cred_ok E v m = true ->
+  (cred_weight E m = Some (m_votes m) /\ 0 < m_votes m)
+  \/ (srv_rule E = true /\ fix_stale E = false /\ (m_round m < fst (v_srv v) \/ m_idx m < snd (v_srv v))).
 Proof.
-  unfold cred_ok, cred_verdict, server_verify. intros -> Hc Hr Hi.
-  destruct b; [reflexivity|]. cbn [orb] in Hc.
-  assert ((m_round m <? fst (v_srv v)) || (m_idx m <? snd (v_srv v)) = false) as Hf by lia.
-  rewrite Hf in Hc. discriminate Hc.
+  unfold cred_ok, cred_verdict, cred_valid.
+  destruct (cred_weight E m) as [w|].
+  - destruct ((0 <? w) && (w =? m_votes m)) eqn:Hv.
+    + intros _. left. assert (w = m_votes m) by lia. subst w. split; [reflexivity|lia].
+    + destruct (srv_rule E); cbn [andb]; [|discriminate].
+      unfold server_verify. cbn [orb].
+      destruct ((m_round m <? fst (v_srv v)) || (m_idx m <? snd (v_srv v))) eqn:Hs; [|discriminate].
+      destruct (fix_stale E); [discriminate|]. intros _. right. repeat split; try reflexivity. lia.
+  - destruct (srv_rule E); cbn [andb]; [|discriminate].
+    unfold server_verify. cbn [orb].
+    destruct ((m_round m <? fst (v_srv v)) || (m_idx m <? snd (v_srv v))) eqn:Hs; [|discriminate].
+    destruct (fix_stale E); [discriminate|]. intros _. right. repeat split; try reflexivity. lia.
 Qed.
 
-Lemma repaired_credential_sound E v m b :
-  fix_stale E = true -> m_cred m = CredVrf b -> cred_ok E v m = true -> b = true.
+Lemma fresh_credential_sound E v m :
+  cred_ok E v m = true ->
+  fst (v_srv v) <= m_round m -> snd (v_srv v) <= m_idx m ->
+  cred_weight E m = Some (m_votes m) /\ 0 < m_votes m.
 Proof.
-  unfold cred_ok, cred_verdict. intros Hfix -> Hc. destruct b; [reflexivity|].
-  rewrite Hfix in Hc. destruct (server_verify false (m_round m) (m_idx m) (v_srv v)); discriminate Hc.
+  intros Hc Hr Hi. destruct (accepted_credential E v m Hc) as [Hv|(_ & _ & Hs)]; [exact Hv|lia].
+Qed.
+
+Lemma repaired_credential_sound E v m :
+  fix_stale E = true -> cred_ok E v m = true -> cred_weight E m = Some (m_votes m) /\ 0 < m_votes m.
+Proof.
+  intros Hfix Hc. destruct (accepted_credential E v m Hc) as [Hv|(_ & Hf & _)]; [exact Hv|congruence].
+Qed.
+
+Lemma stub_credential_sound E v m :
+  srv_rule E = false -> cred_ok E v m = true -> cred_weight E m = Some (m_votes m) /\ 0 < m_votes m.
+Proof.
+  intros Hs Hc. destruct (accepted_credential E v m Hc) as [Hv|(Hf & _)]; [exact Hv|congruence].
 Qed.
 
 Lemma stale_credential_accepted : forall mr mi sr si,
@@ -191,9 +216,11 @@ Definition commit_verifies_full (repaired : bool) : Prop :=
     In (ECommit r i h cp hp cc) ev ->
     exists thr, thr_src E (Hp ++ [o]) r i V.Precommit thr /\ verify_votes (map pv_of cp) thr true = true.
 
-Definition w_env : env := mkEnv 0 [] true false false false.
+Definition w_env : env :=
+  mkEnv 0 [] true false false false false
+        [(1, 32768, 1, V.Precommit, 1); (2, 32768, 1, V.Precommit, 1); (3, 32768, 1, V.Certificate, 2)].
 Definition w_msg (t : vtype) (h a n : N) : op :=
-  Msg (mkMsg Same t 32768 1 h 1 a true n false (Some (4, Chamber)) (CredGiven true)).
+  Msg (mkMsg Same t 32768 1 h 1 a true n false (Some (4, Chamber)) 1).
 Definition w_hist : list op :=
   [Cache 1 true; Ctx 32768 1 4 true None;
    w_msg V.Precommit 1 1 1; w_msg V.Precommit 1 2 1;     (* precommits for block 1: 2 seats = quorum of 4 *)
@@ -217,18 +244,34 @@ Proof.
   vm_compute in Hv. discriminate Hv.
 Qed.
 
-(* every credential the voter's check accepts is VRF-valid, for trees with / without the repair *)
+(* every weight the voter's check accepts is the weight the sortition verifier
+   computes for that credential - for trees with / without the repair *)
 Definition credentials_full (repaired : bool) : Prop :=
-  forall E v m b, fix_stale E = repaired -> m_cred m = CredVrf b -> cred_ok E v m = true -> b = true.
+  forall E v m, fix_stale E = repaired -> cred_ok E v m = true ->
+                cred_weight E m = Some (m_votes m) /\ 0 < m_votes m.
 
 Lemma credentials_refuted : ~ credentials_full false.
 Proof.
   intros Hf.
-  specialize (Hf (mkEnv 0 [] true false false false) (set_srv init_voter (5, 2))
-                 (mkMsg Same V.Prevote 5 1 1 1 1 true 100 false (Some (4, Chamber)) (CredVrf false))
-                 false eq_refl eq_refl eq_refl).
-  discriminate Hf.
+  destruct (Hf (mkEnv 0 [] true false false false true []) (set_srv init_voter (5, 2))
+               (mkMsg Same V.Prevote 5 1 1 1 1 true 100 false (Some (4, Chamber)) 2)
+               eq_refl eq_refl) as (Hw & _).
+  discriminate Hw.
 Qed.
 
 Lemma credentials_repaired : credentials_full true.
-Proof. intros E v m b Hfix. apply repaired_credential_sound. exact Hfix. Qed.
+Proof. intros E v m Hfix. apply repaired_credential_sound. exact Hfix. Qed.
+
+(* the weight recorded for a delivered vote is the verifier's weight for its credential *)
+Lemma counted_weight_verified E H r i t k h a n :
+  fix_stale E = true \/ srv_rule E = false ->
+  counted_by_msg E H r i t k h a n ->
+  exists m, In (Msg m) H /\ m_sender m = a /\ m_round m = r /\ m_idx m = i /\ m_type m = t /\ m_hash m = h /\
+            cred_weight E m = Some (m_votes m) /\ 0 < m_votes m /\ n = w32 (m_votes m).
+Proof.
+  intros Hmode (H1 & H2 & m & thr & HH & Hr & Hi & Ht & Hh & Ha & Hn & _ & _ & Hc).
+  exists m. split; [rewrite HH; apply in_or_app; right; left; reflexivity|].
+  assert (Hw : cred_weight E m = Some (m_votes m) /\ 0 < m_votes m).
+  { destruct Hmode as [Hf|Hs]; [eapply repaired_credential_sound | eapply stub_credential_sound]; eassumption. }
+  destruct Hw as (Hw1 & Hw2). repeat split; try assumption. symmetry. exact Hn.
+Qed.
